@@ -692,6 +692,39 @@ func (w *world) opMargins() {
 	w.trace = append(w.trace, fmt.Sprintf("margins(%d,%d)", off, ovh))
 }
 
+// opNewBad asks the builder for a frame it must refuse (empty or oversized message, oversized switch block or
+// appendix). Nothing of the refused frame - bytes or addresses - may show up in a later frame.
+func (w *world) opNewBad() {
+	mt := msgTypes[w.r.IntN(len(msgTypes))]
+	tag := w.newTag()
+	swN, msgN, apxN := w.r.IntN(40), 1+w.r.IntN(300), w.r.IntN(100)
+	switch w.r.IntN(4) {
+	case 0:
+		msgN = 0
+	case 1:
+		msgN = 10001 + w.r.IntN(3000)
+	case 2:
+		swN = 256 + w.r.IntN(50)
+	default:
+		apxN = 10001 + w.r.IntN(3000)
+	}
+	w.trace = append(w.trace, fmt.Sprintf("new-refused(type=%d,sw=%d,msg=%d,apx=%d)", mt, swN, msgN, apxN))
+	f, err := w.b.NewFrameV1(w.randAddr(), w.randAddr(), mt, w.tagBytes(tag, swN), w.tagBytes(tag, msgN), w.tagBytes(tag, apxN))
+	if err == nil {
+		// accepted after all: a normal frame, release it
+		f.ReturnToPool()
+		return
+	}
+	w.res.Count("invalid_builds_refused", 1)
+	for rot := 0; rot < 8; rot++ {
+		var t [8]byte
+		for k := 0; k < 8; k++ {
+			t[k] = tag[(k+rot)%8]
+		}
+		w.retired[binary.BigEndian.Uint64(t[:])] = retInfo{frame: -1, tag: tag}
+	}
+}
+
 // runSequence executes one operation sequence; returns whether it was non-trivial.
 func (w *world) runSequence(nops int, changeMargins bool) {
 	for i := 0; i < nops && !w.failed; i++ {
@@ -703,8 +736,10 @@ func (w *world) runSequence(nops int, changeMargins bool) {
 				w.opNew()
 			case k < 31:
 				w.opParse()
-			case k < 34:
+			case k < 33:
 				w.opParseBad()
+			case k < 35:
+				w.opNewBad()
 			case k < 48:
 				w.opClone()
 			case k < 58:
